@@ -17,6 +17,7 @@ import ast
 
 from sa import core
 from sa import pycfg
+from sa import tpl
 
 TR = 'malt/pyct/transpiler.py'
 CACHE = 'malt/pyct/cache.py'
@@ -156,7 +157,7 @@ def check(model, rep, tier):
   dom = g.dominators(skip_labels=('exc',))
   for s, ni in zip(stores, ni_store):
     ok = ni is not None and ni_create is not None and ni_create in dom.get(ni, ())
-    same = core.norm(s.value) == core.norm(creates[0].func.value)
+    same = core.norm(s.value) == core.norm(creates[0].func.value)  # same local
     rep.check(ok and same, 'CACHE-LOCK', '%s:publish-after-create' % tf.site,
               'the factory must be stored in the cache only after create() has '
               'completed: the lock-free fast path would otherwise hand out a '
@@ -167,14 +168,15 @@ def check(model, rep, tier):
   # key usage
   has_calls = [c for c in ast.walk(fn) if isinstance(c, ast.Call) and
                core.norm(c.func) == 'self._cache.has']
-  subkey_defs = [n for n in ast.walk(fn) if isinstance(n, ast.Assign) and
-                 core.norm(n.targets[0]) == 'cache_subkey']
+  want_sub = 'self.get_caching_key(%s)' % tf.params()[1]
   ok = len(has_calls) >= 2 and all(
-      [core.norm(a) for a in c.args] == [pname, 'cache_subkey'] for c in has_calls) \
-      and len(subkey_defs) == 1 and core.norm(subkey_defs[0].value) == \
-      'self.get_caching_key(user_context)'
+      len(c.args) == 2 and core.norm(c.args[0]) == pname and
+      tpl.xnorm(tf, c.args[1], c) == want_sub for c in has_calls)
   for s in stores:
-    ok = ok and core.norm(s.targets[0]) == 'self._cache[%s][cache_subkey]' % pname
+    t = s.targets[0]
+    ok = ok and isinstance(t, ast.Subscript) and isinstance(t.value, ast.Subscript) \
+        and core.norm(t.value.value) == 'self._cache' and core.norm(
+            t.value.slice) == pname and tpl.xnorm(tf, t.slice, s) == want_sub
   rep.check(ok, 'CACHE-KEY', '%s:key-usage' % tf.site,
             'lookups and the store must use (fn, get_caching_key(user_context))',
             {'has': [core.norm(c) for c in has_calls]}, line=fn.lineno)
@@ -256,9 +258,10 @@ def check(model, rep, tier):
   w = {i: 1 for i in range(len(gi.nodes)) if any(
       c in ft for c in pycfg.calls_at(gi, i))}
   rng = gi.count_range(w, skip_labels=())
-  kw = {k.arg: core.norm(k.value) for c in ft for k in c.keywords}
+  kw = {k.arg: tpl.xnorm(inst, k.value, c) for c in ft for k in c.keywords}
   ok = rng == (1, 1) and kw.get('globals') == inst.params()[0] and \
-      kw.get('closure') == 'factory_closure' and kw.get('code') == 'factory_code'
+      (inst.params()[1] in (kw.get('closure') or '')) and \
+      kw.get('code') == 'self._unbound_factory.__code__'
   rep.check(ok, 'CACHE-NOSTATE', '%s:fresh-function-per-request' % inst.site,
             'every instantiate() must build a new function from the cached '
             'code with the requester\'s globals and closure',
@@ -282,7 +285,7 @@ def check(model, rep, tier):
   rets = [r for r in ast.walk(fn) if isinstance(r, ast.Return)]
   insts = [c for c in ast.walk(fn) if isinstance(c, ast.Call) and isinstance(
       c.func, ast.Attribute) and c.func.attr == 'instantiate']
-  kw = {k.arg: core.norm(k.value) for c in insts for k in c.keywords}
+  kw = {k.arg: tpl.xnorm(tf, k.value, c) for c in insts for k in c.keywords}
   want = {'globals_': pname + '.__globals__', 'closure': pname + '.__closure__ or ()',
           'defaults': pname + '.__defaults__',
           'kwdefaults': "getattr(%s, '__kwdefaults__', None)" % pname}
